@@ -340,6 +340,10 @@ def run(chk):
             for m in _find(hf["body"], lambda y: y.get("e") == "Match"):
                 for a in m["arms"]:
                     p = a["pat"]
+                    # `Some("name") => ..` on the Option<&str> itself is the same row as `"name" => ..` under `Some(string) =>`
+                    if p.get("p") == "TupleStruct" and str(p.get("path", "")).endswith("Some") and len(p.get("pats", [])) == 1 and \
+                            p["pats"][0].get("p") == "Expr" and p["pats"][0]["expr"].get("e") == "Lit":
+                        p = p["pats"][0]
                     if p.get("p") == "Expr" and p["expr"].get("e") == "Lit":
                         v = hir_value(a["body"])
                         inner = v[2][0] if v[0] == "call" and v[2] else None
